@@ -70,10 +70,22 @@ def _try(hyps, neg, timeout_ms):
     return r, s
 
 
+def nested_quantifier(t):
+    for x in _walk(t, set()):
+        if z3.is_quantifier(x) and any(z3.is_quantifier(y) for y in _walk(x.body(), set())):
+            return True
+    return False
+
+
 def relevant_subsets(hyps, goal):
     """Sound weakenings of the hypothesis set (proving from fewer hypotheses proves the obligation)."""
     gs = symbols(goal)
     hs = [(h, symbols(h), has_quantifier(h)) for h in hyps]
+    flat = [h for h in hyps if not nested_quantifier(h)]
+    if len(flat) < len(hyps):
+        yield "no-nested-quantifiers", flat
+        gs_ = symbols(goal)
+        yield "no-nested+direct", [h for h in flat if symbols(h) & gs_]
     # cone of influence, quantified hypotheses do not extend the cone
     cone = set(gs)
     for _ in range(3):
@@ -92,7 +104,7 @@ def discharge(ob, portfolio=True):
     neg = z3.Not(ob.goal)
     t0 = time.time()
     zv = f"z3-{z3.get_version_string()}"
-    r, s = _try(ob.hyps, neg, min(3000, Z3_TIMEOUT_MS))
+    r, s = _try(ob.hyps, neg, min(2500, Z3_TIMEOUT_MS))
     ob.backend = zv
     if r == z3.unsat:
         ob.status, ob.seconds = "discharged", time.time() - t0
@@ -105,7 +117,7 @@ def discharge(ob, portfolio=True):
     for label, sub in relevant_subsets(ob.hyps, ob.goal):
         if len(sub) == len(ob.hyps):
             continue
-        r2, _ = _try(sub, neg, 4000)
+        r2, _ = _try(sub, neg, 10000)
         if r2 == z3.unsat:
             ob.status, ob.seconds, ob.backend = "discharged", time.time() - t0, f"{zv}[{label}]"
             return ob
